@@ -363,6 +363,55 @@ def cached_shard(shard):
     return p
 
 
+def regsweep_programs():
+    """Every register number x1..x31 as the register a dependency runs through (the hazard alphabets use three registers):
+    producer -> consumer at distance 1 and 2, as first / second ALU operand, load base, store data and base, branch operand,
+    jalr base, and as a destination that is written twice."""
+    out = []
+    for reg in range(1, 32):
+        o = 5 if reg != 5 else 6
+        o2 = 7 if reg != 7 else 8
+        nop = ("addi", 0, 0, 0, 0)
+        T = [
+            [("addi", reg, 0, 0, 5), ("add", o, reg, 0, 0)],
+            [("addi", reg, 0, 0, 5), ("add", o, 0, reg, 0)],
+            [("addi", reg, 0, 0, 5), nop, ("sub", o, reg, reg, 0)],
+            [("addi", reg, 0, 0, 5), nop, nop, ("add", o, reg, reg, 0)],
+            [("lui", reg, 0, 0, 4), ("lw", o, reg, 0, 64)],
+            [("addi", reg, 0, 0, 7), ("sw", 0, 20, reg, 0), ("lw", o, 20, 0, 0)],
+            [("lui", reg, 0, 0, 4), nop, ("sb", 0, reg, 16, 65)],
+            [("addi", reg, 0, 0, 1), ("beq", 0, reg, 0, 8), ("addi", o, 0, 0, 1), ("addi", o2, 0, 0, 2)],
+            [("addi", reg, 0, 0, 1), nop, ("bne", 0, 0, reg, 8), ("addi", o, 0, 0, 1), ("addi", o2, 0, 0, 2)],
+            [("addi", reg, 0, 0, 16), ("jalr", o, reg, 0, 0), ("addi", o2, 0, 0, 1), ("addi", o2, 0, 0, 2), ("addi", o2, o2, 0, 4)],
+            [("lw", reg, 20, 0, 0), ("addi", reg, reg, 0, 1), ("add", o, reg, reg, 0)],
+            [("addi", reg, 0, 0, 3), ("addi", reg, 0, 0, 4), ("add", o, reg, 0, 0)],
+        ]
+        for k, prog in enumerate(T):
+            out.append((reg, k, prog))
+    return out
+
+
+REGSWEEP_REGS = {16: 3, 20: BASE + 64}
+REGSWEEP_WORDS = {BASE + 64: 0x5A5A5A5A}
+
+
+def regsweep_shard(shard):
+    part, parts = shard
+    p = Partial()
+    for i, (reg, k, prog) in enumerate(regsweep_programs()):
+        if i % parts != part:
+            continue
+        pm = {4 * j: x for j, x in enumerate(prog)}
+        one, bad = compare_modes(pm, REGSWEEP_REGS, REGSWEEP_WORDS, len(prog) + 4)
+        p.evaluations += 1
+        p.nontrivial += 1
+        p.counters["dependency-through-every-register"] += 1
+        for f, d in bad:
+            p.violation(dict(oracle="five-vs-single", field=f, sweep="registers"), dict(case_of(pm, REGSWEEP_REGS, REGSWEEP_WORDS, len(prog) + 4, 0), sig=dict(sweep="registers")),
+                        f"[{rv.prog_text(prog)}]: {d}", size=(len(prog), reg, k))
+    return p
+
+
 def long_shard(shard):
     """Runs of hundreds / thousands of cycles (long straight-line code, counted loops with stalls, flushes, stores, calls, prints)."""
     from vf.checks import c07
@@ -444,4 +493,8 @@ def run(ctx):
     part = pmap(long_shard, [(seed, k, ci) for k in range(len(c07.long_programs(seed))) for ci in (None, 2, 5)])
     ctx.space("long-runs", part, t0, programs=[n for n, _p, _k in c07.long_programs(seed)], cache_configurations=["none", "#2", "#5"])
     ctx.require("run-longer-than-256-instructions")
+    t0 = time.time()
+    part = pmap(regsweep_shard, [(i, 16) for i in range(16)])
+    ctx.space("dependencies-through-every-register", part, t0, registers="x1..x31", templates=12)
+    ctx.require("dependency-through-every-register")
     ctx.extra["bounds"] = dict(program_length_H18=4 if ctx.quick else 5, program_length_H30=3 if ctx.quick else 4, step_horizon=steps)
